@@ -43,10 +43,24 @@ def mentions_error_field(e):
 ZVT_ADTS = {}
 
 
+CLIENT_SEQUENCES = ("zvt::sequences::ReadCard", "zvt::sequences::Reservation", "zvt::sequences::PartialReversal",
+                    "zvt::sequences::PreAuthReversal", "zvt::sequences::EndOfDay", "zvt::sequences::Initialization",
+                    "zvt::sequences::SetTerminalId", "zvt::feig::sequences::GetSystemInfo")
+
+
 def run(ctx, chk):
     crate = ctx.crate("zvt_feig_terminal")
     zvt = ctx.crate("zvt")
     ZVT_ADTS.update(zvt.adts)
+    # the client decides "the exchange is over" by the end of the reply stream: the streams of the exchanges it runs must end
+    # exactly at the final packets of the specification - a stream that ends at a Status-Information never delivers the Abort
+    # that follows it (the protocol-monitor clauses of C05 for these sequences)
+    import rules_c05
+    from report import Sub
+    sub5 = Sub(chk, "C20/sequence", lambda r: r.startswith("C05/") and r not in ("C05/present",),
+               instance_filter=lambda i: str(i) in CLIENT_SEQUENCES)
+    rules_c05._run_own(ctx, sub5)
+    chk.floor("reply-stream obligations of the client's exchanges (shared with C05)", sub5.count, 6)
     n_arms = n_complete = 0
     import seqcheck
     from mirlite import feasible_reach
